@@ -191,7 +191,9 @@ def exhaustive_small(two_gates):
 
 
 def make_case(rng, dump, outs):
-    return {'circuit': dump, 'outs': outs, 'raw': list(run_tseytin(dump, outs))}
+    raw, saved = run_tseytin(dump, outs, capture=True)
+    return {'circuit': dump, 'outs': outs, 'raw': list(raw),
+            'saved': None if (saved is None or raw[0] != 'ok') else [[k, v] for k, v in saved.items()]}
 
 
 def random_case(rng, p_malformed=0.08):
@@ -216,8 +218,9 @@ def cnf_term(raw):
 
 
 def case_term(case):
+    saved = ct.opt(case.get('saved'), lambda d: ct.lst(f'({ct.s(k)}, {z(v)})' for k, v in d) + '%Z')
     return (f'({ct.circuit(case["circuit"])}, {ct.opt(case["outs"], zlist)}, '
-            f'{ct.res(tuple(case["raw"]), cnf_term)})')
+            f'{ct.res(tuple(case["raw"]), cnf_term)}, {saved})')
 
 
 def template_cases(rng, n_per_template):
